@@ -182,6 +182,34 @@ class C14(Check):
                         other_base = MemoryFS()
                         other_base.makedirs(f'{e2.id0.hex()}/{rng.rbytes(16).hex()}')
                         other_root = SDRoot(other_base, sd_key=key2)     # noqa: F841  (kept alive on purpose)
+                    elif case['seed'] % 4 == 2:
+                        # the caller's engine already holds ANOTHER console's SD key, and this card's key is given as the argument
+                        info['engine pre-keyed with another movable.sed + sd_key argument'] = 1
+                        eng2 = e.CryptoEngine()
+                        eng2.setup_sd_key(Rng(case['seed'] + 22).rbytes(16))
+                        _ = eng2.id0
+                        root = SDRoot(base, crypto=eng2, sd_key=data)
+                    elif case['seed'] % 4 == 3:
+                        # the key comes from a movable.sed FILE whose path was used before, for another console's card, in this process
+                        import os as _os
+                        import tempfile as _tf
+                        info['sd_key_file path used before for another card'] = 1
+                        kdir = _tf.mkdtemp(prefix='pyctr-verif-c14k-')
+                        kpath = _os.path.join(kdir, 'movable.sed')
+                        try:
+                            key3 = Rng(case['seed'] + 23).rbytes(16)
+                            with open(kpath, 'wb') as kf:
+                                kf.write(bytes(0x110) + key3 + bytes(0x20))
+                            e3 = e.CryptoEngine()
+                            e3.setup_sd_key(key3)
+                            ob = MemoryFS()
+                            ob.makedirs(f'{e3.id0.hex()}/{rng.rbytes(16).hex()}')
+                            SDRoot(ob, sd_key_file=kpath)
+                            with open(kpath, 'wb') as kf:
+                                kf.write(data if len(data) in (0x120, 0x140) else bytes(0x110) + data + bytes(0x20))
+                            root = SDRoot(base, sd_key_file=kpath)
+                        finally:
+                            shutil.rmtree(kdir, ignore_errors=True)
                     else:
                         root = SDRoot(base, crypto=eng)
                     sdfs = root.open_id1()
